@@ -2,7 +2,7 @@
    rejection of malformed input by the constructor, and the two record importers. *)
 From Coq Require Import List Arith ZArith Lia Bool Sorted.
 From BiomV Require Import Base.Tree Base.ListUtil Base.Matrix Base.Dict Model.Table Model.Err
-  Proofs.ErrProofs Model.Construct.
+  Model.Construct.
 Import ListNotations.
 
 (* ================================================================== A. coordinate data *)
@@ -413,6 +413,13 @@ Qed.
 Module ErrDefault.
 Import String.
 Local Open Scope string_scope.
+(* sorted(self._test.keys()) *)
+Lemma sorted_kinds :
+  ssorted (dkeys registry) = ["empty";"obsdup";"obsmdsize";"obssize";"sampdup";"sampmdsize";"sampsize"].
+Proof. vm_compute. reflexivity. Qed.
+
+(* written against the generated shape of ErrorProfile.test (Gen/ErrGen.v): a fold over the
+   sorted kinds that skips an ignored kind and stops at the first one that reacts *)
 Lemma errcheck_default v :
   errcheck default_profile v [] =
     if test_obsdup v then Ok (EvRaise "obsdup")
@@ -423,22 +430,19 @@ Lemma errcheck_default v :
     else if test_sampsize v then Ok (EvRaise "sampsize")
     else Ok EvNone.
 Proof.
-  unfold errcheck. rewrite sorted_registry.
-  cbn [test_loop dget registry String.eqb Ascii.eqb Bool.eqb].
-  change (is_ignored default_profile "empty") with true.
-  change (is_ignored default_profile "obsdup") with false.
-  change (is_ignored default_profile "obsmdsize") with false.
-  change (is_ignored default_profile "obssize") with false.
-  change (is_ignored default_profile "sampdup") with false.
-  change (is_ignored default_profile "sampmdsize") with false.
-  change (is_ignored default_profile "sampsize") with false.
-  change (handle_error default_profile "obsdup") with (EvRaise "obsdup").
-  change (handle_error default_profile "obsmdsize") with (EvRaise "obsmdsize").
-  change (handle_error default_profile "obssize") with (EvRaise "obssize").
-  change (handle_error default_profile "sampdup") with (EvRaise "sampdup").
-  change (handle_error default_profile "sampmdsize") with (EvRaise "sampmdsize").
-  change (handle_error default_profile "sampsize") with (EvRaise "sampsize").
-  destruct (test_empty v); reflexivity.
+  unfold errcheck, test_loop. cbn [lnull]. rewrite sorted_kinds.
+  cbn [fold_left]. unfold test_body. cbn [dget registry String.eqb Ascii.eqb Bool.eqb].
+  repeat match goal with
+  | |- context [dget (st default_profile) ?k] =>
+      let r := eval vm_compute in (dget (st default_profile) k) in
+      change (dget (st default_profile) k) with r
+  | |- context [handle_error default_profile ?k v] =>
+      let r := eval vm_compute in (handle_error default_profile k v) in
+      change (handle_error default_profile k v) with r
+  end.
+  cbn [String.eqb Ascii.eqb Bool.eqb].
+  destruct (test_empty v), (test_obsdup v), (test_obsmdsize v), (test_obssize v), (test_sampdup v),
+    (test_sampmdsize v), (test_sampsize v); reflexivity.
 Qed.
 End ErrDefault.
 
@@ -458,6 +462,14 @@ Proof.
   destruct (test_sampmdsize v); [left; split; [reflexivity|eexists; reflexivity]|].
   destruct (test_sampsize v); [left; split; [reflexivity|eexists; reflexivity]|].
   right. split; reflexivity.
+Qed.
+
+Lemma distinct_NoDup l : NoDup l -> distinct l = l.
+Proof.
+  induction l as [|x l IH]; intros H; simpl; [reflexivity|].
+  inversion H as [|? ? Hx Hl]; subst. destruct (zmem x l) eqn:E.
+  - apply zmem_In in E. contradiction.
+  - rewrite IH by exact Hl. reflexivity.
 Qed.
 
 Lemma distinct_le l : length (distinct l) <= length l.
